@@ -20,8 +20,9 @@ DESIGN_REF = '6.10'
 TECHNIQUE = ('Hypothesis-generated modules with by-construction doctest outcomes x command x verbosity x style; oracle = '
              'tallies, failed set, executed multiset (trace file) and exit status computed from the generator inventory; '
              'in-process doctest_module runs plus subprocess CLI runs')
-LEVEL_TEXT = ("Generated modules of 0-10 documented functions and methods whose doctests are drawn from 12 by-construction "
-              "kinds (pass, wrong output, exception, failure in the last statement, all skipped by block SKIP, unmet REQUIRES, "
+LEVEL_TEXT = ("Generated modules of 0-10 documented functions and methods whose doctests are drawn from 14 by-construction "
+              "kinds (pass, wrong output, exception, failure in the last statement, all skipped by block SKIP, unmet REQUIRES, every "
+              "statement skipped inline or by REQUIRES after a harmless block directive, "
               "partly skipped, expected exception, comment only, force-disabled by each of the five patterns with a body that "
               "would fail; one or two blocks per docstring, google-tagged or bare) in any number and order are run with "
               "command 'all' x verbosity 0-3 x style auto/google/freeform: the trace file must hold every enabled doctest "
